@@ -83,4 +83,92 @@ theorem rtf_arith0 {p r S : Rat} (hp : p.abs ≤ 1099511627776)
   simp only [Rat.abs] at hp e1 et ⊢
   grind
 
+/-! ### drift -/
+
+theorem tdiv_tmod_facts (d : Int) :
+    d = Int.tdiv d 1000000000 * 1000000000 + Int.tmod d 1000000000 ∧
+    (0 ≤ d → 0 ≤ Int.tmod d 1000000000 ∧ Int.tmod d 1000000000 ≤ d) ∧
+    (d ≤ 0 → d ≤ Int.tmod d 1000000000 ∧ Int.tmod d 1000000000 ≤ 0) ∧
+    (Int.tmod d 1000000000).natAbs < 1000000000 := by
+  by_cases h : 0 ≤ d
+  · rw [Int.tdiv_eq_ediv_of_nonneg h, Int.tmod_eq_emod_of_nonneg h]
+    omega
+  · have h' : 0 ≤ -d := by omega
+    have e1 : Int.tdiv d 1000000000 = -((-d) / 1000000000) := by
+      rw [← Int.tdiv_eq_ediv_of_nonneg h', Int.neg_tdiv]; omega
+    have e2 : Int.tmod d 1000000000 = -((-d) % 1000000000) := by
+      rw [← Int.tmod_eq_emod_of_nonneg h', Int.neg_tmod]; omega
+    rw [e1, e2]
+    omega
+
+/-- L1: seconds as a double -/
+theorem drift_L1 {D sec n fr Sv η : Rat} (hη0 : 0 ≤ η) (hη : η ≤ 1 / 1152921504606846976)
+    (hD : D = sec + n) (hDb : D.abs ≤ 17179869184)
+    (hpos : 0 ≤ D → 0 ≤ n ∧ n ≤ D) (hneg : D ≤ 0 → D ≤ n ∧ n ≤ 0)
+    (e1 : (fr - n).abs ≤ n.abs / 9007199254740992 + η)
+    (e2 : (Sv - (sec + fr)).abs ≤ (sec + fr).abs / 9007199254740992 + η) :
+    (Sv - D).abs ≤ D.abs * (3 / 9007199254740992) + 3 * η ∧
+    (sec + fr).abs ≤ 34359738368 ∧ Sv.abs ≤ 34359738368 ∧ n.abs ≤ 17179869184 := by
+  simp only [Rat.abs] at hDb e1 e2 ⊢
+  grind
+
+theorem abs_mul_le {a b A B : Rat} (ha : a.abs ≤ A) (hb : b.abs ≤ B) : (a * b).abs ≤ A * B := by
+  rw [abs_mul]
+  have h1 := Rat.mul_le_mul_of_nonneg_right ha (@Rat.abs_nonneg b)
+  have h2 := Rat.mul_le_mul_of_nonneg_left hb (Rat.le_trans (@Rat.abs_nonneg a) ha)
+  exact Rat.le_trans h1 h2
+
+/-- L2: the one non-linear step: scale an error bound on `Sv ≈ D` by the factor `c` -/
+theorem drift_L2 {D Sv c κ η : Rat} (hη0 : 0 ≤ η) (hc : c.abs ≤ 1 / 2)
+    (h : (Sv - D).abs ≤ D.abs * κ + 3 * η) :
+    (Sv * c - D * c).abs ≤ (D * c).abs * κ + 2 * η := by
+  have e : Sv * c - D * c = (Sv - D) * c := by grind
+  rw [e, abs_mul, abs_mul]
+  have h1 := Rat.mul_le_mul_of_nonneg_right h (@Rat.abs_nonneg c)
+  have h2 := Rat.mul_le_mul_of_nonneg_left hc (show 0 ≤ 3 * η by grind)
+  grind
+
+/-- L3: the two remaining roundings, with the underflow slack absorbed into `|E|` -/
+theorem drift_L3 {x y Mv Rv E η : Rat} (hη0 : 0 ≤ η)
+    (hE : E = x * 1000000000) (hη : 4000000000 * η ≤ E.abs / 1152921504606846976)
+    (h : (y - x).abs ≤ x.abs * (3 / 9007199254740992) + 2 * η)
+    (e3 : (Mv - y).abs ≤ y.abs / 9007199254740992 + η)
+    (e4 : (Rv - Mv * 1000000000).abs ≤ (Mv * 1000000000).abs / 9007199254740992 + η) :
+    (Rv - E).abs ≤ E.abs / 1125899906842624 := by
+  subst hE
+  simp only [Rat.abs] at hη h e3 e4 ⊢
+  grind
+
+theorem mul_le_mul' {a b c d : Rat} (ha : 0 ≤ a) (hab : a ≤ b) (hc : 0 ≤ c) (hcd : c ≤ d) :
+    a * c ≤ b * d :=
+  Rat.le_trans (Rat.mul_le_mul_of_nonneg_right hab hc)
+    (Rat.mul_le_mul_of_nonneg_left hcd (Rat.le_trans ha hab))
+
+theorem pow2_m175 : pow2 (-175) = 1 / 47890485652059026823698344598447161988085597568237568 := by
+  rw [pow2_neg]; congr 1
+theorem pow2_50_lit : pow2 50 = 1125899906842624 := by decide
+
+/-- magnitude of the third rounding's result -/
+theorem drift_L3b {y Mv η : Rat} (hη0 : 0 ≤ η) (hη : η ≤ 1 / 1152921504606846976)
+    (hy : y.abs ≤ 17179869184)
+    (e3 : (Mv - y).abs ≤ y.abs / 9007199254740992 + η) :
+    (Mv * 1000000000).abs ≤ 36893488147419103232 := by
+  simp only [Rat.abs] at hy e3 ⊢
+  grind
+
+/-- the underflow slack is negligible against `|E| ≥ 2^-900` -/
+theorem drift_eta {E : Rat} (hE : pow2 (-900) ≤ E.abs) :
+    4000000000 * pow2 (-1075) ≤ E.abs / 1152921504606846976 := by
+  have : pow2 (-1075) = pow2 (-900) * pow2 (-175) := by rw [← pow2_add]; rfl
+  rw [this, pow2_m175]
+  have := pow2_pos (-900)
+  grind
+
+/-- last step: truncation -/
+theorem drift_final {Rv E T : Rat} (hE : E.abs ≤ 4611686018427387904)
+    (h : (Rv - E).abs ≤ E.abs / 1125899906842624) (ht : (T - Rv).abs < 1) :
+    (T - E).abs ≤ 1 + E.abs / 1125899906842624 ∧ Rv.abs ≤ 4611686018427392000 := by
+  simp only [Rat.abs] at hE h ht ⊢
+  grind
+
 end ScionTime.C18Float
